@@ -44,16 +44,70 @@ def load_trace(files: Dict[int, str], directory: str, include_last: bool = False
     return hta_call("load_traces" if not parse_only else "parse_traces", _do)
 
 
-def load_analysis(files: Dict[int, str], directory: str, include_last: bool = False, mp: bool = False):
+def load_analysis(files: Dict[int, str], directory: str, include_last: bool = False, mp: bool = False, prelude=None):
     """A TraceAnalysis whose traces were loaded like TraceAnalysis.__init__ does, with control over
     the use_multiprocessing flag (the constructor always uses the default)."""
     quiet()
     from hta.trace_analysis import TraceAnalysis
 
     if mp:
-        return hta_call("TraceAnalysis", lambda: TraceAnalysis(trace_files=dict(files), trace_dir=directory,
-                                                               include_last_profiler_step=include_last))
-    t = load_trace(files, directory, include_last, mp=False)
-    ta = TraceAnalysis.__new__(TraceAnalysis)
-    ta.t = t
+        ta = hta_call("TraceAnalysis", lambda: TraceAnalysis(trace_files=dict(files), trace_dir=directory,
+                                                             include_last_profiler_step=include_last))
+    else:
+        t = load_trace(files, directory, include_last, mp=False)
+        ta = TraceAnalysis.__new__(TraceAnalysis)
+        ta.t = t
+    run_prelude(ta, prelude)
     return ta
+
+
+# ---- prelude: other analyses run on the same object before the analysis under test ------------------
+PRELUDE_OPS = ["call_graph", "call_graph_cp", "decode", "kernel_breakdown_mem", "temporal", "overlap", "launch_stats", "queue",
+               "critical_path", "user_annotations", "call_graph_twice"]
+
+
+def run_prelude(ta, ops) -> None:
+    """Run other public analyses on the same TraceAnalysis object first.  Several of them add columns to, or otherwise touch,
+    the shared trace frames; the property under test must hold regardless of what ran before.  Failures of a prelude
+    operation are not this check's business and are ignored."""
+    quiet()
+    ranks = sorted(ta.t.traces)
+    for op in ops or []:
+        try:
+            if op == "call_graph":
+                from hta.common.trace_call_graph import CallGraph
+
+                CallGraph(ta.t)
+            elif op == "call_graph_twice":
+                from hta.common.trace_call_graph import CallGraph
+
+                CallGraph(ta.t)
+                CallGraph(ta.t)
+            elif op == "call_graph_cp":
+                from hta.common.call_stack import CallGraph as CallGraphA
+
+                CallGraphA(ta.t)
+            elif op == "decode":
+                ta.t.decode_symbol_ids(use_shorten_name=True)
+            elif op == "kernel_breakdown_mem":
+                ta.get_gpu_kernel_breakdown(visualize=False, include_memory_kernels=True, num_kernels=2)
+            elif op == "temporal":
+                ta.get_temporal_breakdown(visualize=False)
+            elif op == "overlap":
+                ta.get_comm_comp_overlap(visualize=False)
+            elif op == "launch_stats":
+                ta.get_cuda_kernel_launch_stats(ranks=ranks, visualize=False)
+            elif op == "queue":
+                ta.get_queue_length_time_series(ranks=ranks)
+            elif op == "critical_path":
+                ta.critical_path_analysis(rank=ranks[0], annotation="", instance_id=None)
+            elif op == "user_annotations":
+                ta.get_gpu_kernels_with_user_annotations(rank=ranks[0])
+        except Exception:  # noqa: BLE001
+            pass
+
+
+def prelude_strategy():
+    from hypothesis import strategies as st
+
+    return st.one_of(st.just([]), st.just([]), st.lists(st.sampled_from(PRELUDE_OPS), min_size=1, max_size=2))
